@@ -180,17 +180,21 @@ func (g *gen) randPaths(md protoreflect.MessageDescriptor) []string {
 
 // ---- one sequence on one model ----
 type modelRun struct {
-	g       *gen
-	spec    modelSpec
-	model   reflect.Value
-	mon     monitor
-	owner   []string // per snapshot: the method whose argument it was (arguments only)
-	subs    []*collector
-	subName []string
-	pool    []string
-	ints    []int64 // integers earlier calls returned (counts, indexes)
-	log     []string
-	seen    map[string]bool // classes already reported for this run
+	g        *gen
+	spec     modelSpec
+	model    reflect.Value
+	mon      monitor
+	owner    []string // per snapshot: the method whose argument it was (arguments only)
+	subs     []*collector
+	subName  []string
+	pool     []string
+	ints     []int64 // integers earlier calls returned (counts, indexes)
+	lastK    int
+	lastArgs []reflect.Value
+	lastPre  []proto.Message
+	lastDesc []string
+	log      []string
+	seen     map[string]bool // classes already reported for this run
 }
 
 func (mr *modelRun) direct(class, what string) {
@@ -356,6 +360,12 @@ func (mr *modelRun) step(i int) {
 		return
 	}
 	k := eligible[g.r.Intn(len(eligible))]
+	// the same call again, with equal arguments (fresh copies of the messages): re-activating the active
+	// mode, re-adding the same child, ... are where "nothing to do" paths edit in place
+	repeat := mr.lastArgs != nil && g.r.Chance(30)
+	if repeat {
+		k = mr.lastK
+	}
 	meth := t.Method(k)
 	ft := meth.Type
 	readOnly := isReadOnly(meth.Name)
@@ -365,7 +375,23 @@ func (mr *modelRun) step(i int) {
 	var desc []string
 	var ctx context.Context
 	var cancel context.CancelFunc
-	for p := 1; p < ft.NumIn(); p++ {
+	if repeat {
+		for idx, a := range mr.lastArgs {
+			switch {
+			case mr.lastPre[idx] != nil:
+				v := reflect.ValueOf(proto.Clone(mr.lastPre[idx]))
+				args, msgArgs = append(args, v), append(msgArgs, v)
+			case a.Type().Implements(ctxType):
+				ctx, cancel = context.WithCancel(context.Background())
+				args = append(args, reflect.ValueOf(ctx))
+			default:
+				args = append(args, a)
+			}
+		}
+		desc = append([]string{"again"}, mr.lastDesc...)
+		g.hist["same call repeated"]++
+	}
+	for p := 1; p < ft.NumIn() && !repeat; p++ {
 		pt := ft.In(p)
 		if ft.IsVariadic() && p == ft.NumIn()-1 {
 			e := pt.Elem()
@@ -445,6 +471,15 @@ func (mr *modelRun) step(i int) {
 			desc = append(desc, fmt.Sprint(n))
 		}
 	}
+	if !repeat {
+		mr.lastK, mr.lastArgs, mr.lastDesc = k, args, desc
+		mr.lastPre = make([]proto.Message, len(args))
+		for idx, a := range args {
+			if isProtoPtr(a.Type()) && !a.IsNil() {
+				mr.lastPre[idx] = proto.Clone(a.Interface().(proto.Message))
+			}
+		}
+	}
 	full := mr.spec.name + "." + meth.Name
 	call := fmt.Sprintf("op %d %s(%s)", i, meth.Name, strings.Join(desc, ", "))
 	mr.log = append(mr.log, call)
@@ -518,6 +553,9 @@ func (mr *modelRun) step(i int) {
 		}
 	}
 	mr.report(full, call)
+	if g.r.Chance(35) {
+		mr.readAll(i)
+	}
 
 	// now and then the caller rewrites a message it passed to an earlier call
 	if g.r.Chance(30) {
@@ -549,6 +587,29 @@ func (mr *modelRun) step(i int) {
 	}
 }
 
+// readAll performs every argument-free read of the model and keeps what it returns (the monitor as a
+// reader: results of Modes(), ListChildren(), GetX() ... are held and re-compared like any other result)
+func (mr *modelRun) readAll(i int) {
+	t := mr.model.Type()
+	for k := 0; k < t.NumMethod(); k++ {
+		m := t.Method(k)
+		ft := m.Type
+		n := ft.NumIn() - 1
+		if !isReadOnly(m.Name) || strings.HasPrefix(m.Name, "Pull") || !(n == 0 || (n == 1 && ft.IsVariadic())) || resultMsgTypeOfFunc(ft) == nil {
+			continue
+		}
+		func() {
+			defer func() { recover() }()
+			for ri, r := range mr.model.Method(k).Call(nil) {
+				if r.Type() != errorType {
+					mr.cross(r, fmt.Sprintf("%s (monitor read) result %d of %s.%s", callTag(i), ri, mr.spec.name, m.Name), false, 0)
+				}
+			}
+		}()
+	}
+	mr.g.hist["monitor reads all getters"]++
+}
+
 func callTag(i int) string { return fmt.Sprintf("op %d", i) }
 
 func (mr *modelRun) drain() {
@@ -564,6 +625,11 @@ func (mr *modelRun) report(full, call string) {
 		s := mr.mon.snaps[ci]
 		mr.direct("snapshot-changed:"+full, fmt.Sprintf("%s changed after %s", s.what, call))
 	}
+}
+
+func numMethods(spec modelSpec) (n int) {
+	defer func() { recover() }()
+	return reflect.TypeOf(spec.mk()).NumMethod()
 }
 
 func (g *gen) modelSeq(spec modelSpec, nOps int) {
